@@ -422,6 +422,8 @@ fn make_language(req: &Value, multi_file: bool) -> Box<dyn Language> {
             prefix: s(&cfg, "prefix"),
             type_mappings: tm,
             no_version_header: !header,
+            // further state a change of the back end may add keeps its default
+            ..Default::default()
         }),
         "swift" => Box::new(Swift {
             prefix: s(&cfg, "prefix"),
@@ -441,6 +443,7 @@ fn make_language(req: &Value, multi_file: bool) -> Box<dyn Language> {
             module_name: s(&cfg, "module_name"),
             type_mappings: tm,
             no_version_header: !header,
+            ..Default::default()
         }),
         "go" => Box::new(Go {
             package: s(&cfg, "package"),
